@@ -30,7 +30,8 @@
    extension of the proof window (plus the fixed RenewContractCost in RHP3). *)
 From HostdBase Require Import Base.
 From HostdRevision Require Import Model Proofs.
-From HostdFormation Require Import Model Proofs.
+From HostdFormation Require Import Model Proofs ProofsGen.
+From HostdFormation.gen Require Import FormationGen.
 From HostdFormation Require Legacy.
 Local Open Scope N_scope.
 
@@ -221,3 +222,116 @@ Example c12_nonvacuous :
   /\ renew3 true ex_existing ex_clr ex_rn3 1 5 100000 ex_pt = Ok (ORenew 4000 (mkU 10 0 0) (mkU 100 838860807 50))
   /\ form2 ex_fc 1 1001 100000 ex_s2 = Err EInvalid.
 Proof. exact nonvacuous_ex. Qed.
+
+(** The same theorems about the REGENERATED definitions: gen/FormationGen.v is written by
+   tools/go2coq from the current rhp/v2/contracts.go (module V2) and rhp/v3/contracts.go
+   (module V3) at the start of every check run; GenEquiv.v proves each translated function equal
+   to the hand-written model for all arguments, ProofsGen.v transports the lemmas. *)
+
+Theorem c12_gen_formation_sound : forall fc uhexp height s hc,
+  nowrap height (s_window s) (s_maxdur s) ->
+  V2.validateContractFormation fc uhexp height s = Ok hc ->
+  terms_ok fc height (s_window s) (s_maxdur s) (s_address s) /\
+  rsize fc = 0 /\ rnum fc = 0 /\ rroot fc = 0 /\ ruh fc = uhexp /\
+  mvoid fc = 0 /\ vh fc = mh fc /\
+  s_price s <= vh fc /\ vh fc <= s_maxcoll s /\
+  hc = vh fc - s_price s /\ hc <= s_maxcoll s.
+Proof. exact gen_validate_formation_sound. Qed.
+Print Assumptions c12_gen_formation_sound.
+
+Theorem c12_gen_renewal2_sound : forall ex rn uhexp baseRev baseRisk height s sr risked locked,
+  nowrap height (s_window s) (s_maxdur s) -> inrange rn ->
+  V2.validateContractRenewal ex rn uhexp baseRev baseRisk height s = Ok (sr, risked, locked) ->
+  terms_ok rn height (s_window s) (s_maxdur s) (s_address s) /\
+  rnum rn = 0 /\ rsize rn = rsize ex /\ rroot rn = rroot ex /\ rwe ex <= rwe rn /\ ruh rn = uhexp /\
+  mh rn <= vh rn /\ vh rn - mh rn <= baseRev + baseRisk /\ mvoid rn = vh rn - mh rn /\
+  sr = baseRev /\ baseRev <= vh rn /\ locked = vh rn - baseRev /\ locked <= s_maxcoll s /\
+  risked = (vh rn - mh rn) - baseRev.
+Proof. exact gen_validate_renewal2_sound. Qed.
+Print Assumptions c12_gen_renewal2_sound.
+
+Theorem c12_gen_renewal3_sound : forall ex rn uhexp wallet baseRev baseRisk pt risked locked,
+  nowrap (p_height pt) (p_window pt) (p_maxdur pt) -> inrange rn ->
+  V3.validateContractRenewal ex rn uhexp wallet baseRev baseRisk pt = Ok (risked, locked) ->
+  terms_ok rn (p_height pt) (p_window pt) (p_maxdur pt) wallet /\
+  rnum rn = 0 /\ rsize rn = rsize ex /\ rroot rn = rroot ex /\ rwe ex <= rwe rn /\ ruh rn = uhexp /\
+  mh rn <= vh rn /\ vh rn - mh rn <= baseRev + baseRisk /\ mvoid rn = vh rn - mh rn /\
+  p_price pt + baseRev <= vh rn /\ locked = vh rn - (p_price pt + baseRev) /\ locked <= p_maxcoll pt /\
+  risked = (vh rn - mh rn) - baseRev /\
+  p_price pt + locked - risked <= mh rn.
+Proof. exact gen_validate_renewal3_sound. Qed.
+Print Assumptions c12_gen_renewal3_sound.
+
+Theorem c12_gen_formation_window_start_upper_any_settings : forall fc uhexp height s hc,
+  V2.validateContractFormation fc uhexp height s = Ok hc -> rws fc <= height + s_maxdur s.
+Proof. exact gen_validate_formation_upper. Qed.
+Print Assumptions c12_gen_formation_window_start_upper_any_settings.
+
+Theorem c12_gen_renewal2_window_start_upper_any_settings : forall ex rn uhexp baseRev baseRisk height s x,
+  V2.validateContractRenewal ex rn uhexp baseRev baseRisk height s = Ok x -> rws rn <= height + s_maxdur s.
+Proof. exact gen_validate_renewal2_upper. Qed.
+Print Assumptions c12_gen_renewal2_window_start_upper_any_settings.
+
+Theorem c12_gen_renewal3_window_start_upper_any_settings : forall ex rn uhexp wallet baseRev baseRisk pt x,
+  V3.validateContractRenewal ex rn uhexp wallet baseRev baseRisk pt = Ok x -> rws rn <= p_height pt + p_maxdur pt.
+Proof. exact gen_validate_renewal3_upper. Qed.
+Print Assumptions c12_gen_renewal3_window_start_upper_any_settings.
+
+Theorem c12_gen_formation_establishes_shape : forall fc uhexp height s hc other uc,
+  V2.validateContractFormation fc uhexp height s = Ok hc ->
+  shape23 fc /\ shape23 (initial_revision fc other uc).
+Proof. exact gen_formation_establishes_shape. Qed.
+Print Assumptions c12_gen_formation_establishes_shape.
+
+Theorem c12_gen_renewal2_establishes_shape : forall ex rn uhexp baseRev baseRisk height s x other uc,
+  V2.validateContractRenewal ex rn uhexp baseRev baseRisk height s = Ok x ->
+  shape23 rn /\ shape23 (initial_revision rn other uc).
+Proof. exact gen_renewal2_establishes_shape. Qed.
+Print Assumptions c12_gen_renewal2_establishes_shape.
+
+Theorem c12_gen_renewal3_establishes_shape : forall ex rn uhexp wallet baseRev baseRisk pt x other uc,
+  V3.validateContractRenewal ex rn uhexp wallet baseRev baseRisk pt = Ok x ->
+  shape23 rn /\ shape23 (initial_revision rn other uc).
+Proof. exact gen_renewal3_establishes_shape. Qed.
+Print Assumptions c12_gen_renewal3_establishes_shape.
+
+Theorem c12_gen_formation_no_panic : forall fc uhexp height s,
+  V2.validateContractFormation fc uhexp height s <> Panic.
+Proof. exact gen_validate_formation_no_panic. Qed.
+Print Assumptions c12_gen_formation_no_panic.
+
+Theorem c12_gen_renewal2_no_panic : forall ex rn uhexp baseRev baseRisk height s,
+  V2.validateContractRenewal ex rn uhexp baseRev baseRisk height s <> Panic.
+Proof. exact gen_validate_renewal2_no_panic. Qed.
+Print Assumptions c12_gen_renewal2_no_panic.
+
+Theorem c12_gen_renewal3_no_panic : forall ex rn uhexp wallet baseRev baseRisk pt,
+  inrange rn ->
+  V3.validateContractRenewal ex rn uhexp wallet baseRev baseRisk pt <> Panic.
+Proof. exact gen_validate_renewal3_no_panic. Qed.
+Print Assumptions c12_gen_renewal3_no_panic.
+
+(* renewalBaseCosts as translated from both packages ([< two64]: window ends are uint64 in Go) *)
+Theorem c12_gen_base_costs2_sound : forall ex rn s br bc,
+  rwe ex < two64 -> rwe rn < two64 ->
+  V2.renewalBaseCosts ex rn s = Ok (br, bc) ->
+  br = s_price s + ext_cost (s_storage s) ex rn /\ bc = ext_cost (s_coll s) ex rn.
+Proof. exact gen_base_costs2_eq. Qed.
+Print Assumptions c12_gen_base_costs2_sound.
+
+Theorem c12_gen_base_costs3_sound : forall ex rn pt br bc,
+  rwe ex < two64 -> rwe rn < two64 ->
+  V3.renewalBaseCosts ex rn pt = Ok (br, bc) ->
+  br = p_renewcost pt + ext_cost (p_writestore pt) ex rn /\ bc = ext_cost (p_collcost pt) ex rn.
+Proof. exact gen_base_costs3_eq. Qed.
+Print Assumptions c12_gen_base_costs3_sound.
+
+Theorem c12_gen_base_costs2_no_panic : forall ex rn s,
+  rwe ex < two64 -> rwe rn < two64 -> V2.renewalBaseCosts ex rn s <> Panic.
+Proof. exact gen_base_costs2_no_panic. Qed.
+Print Assumptions c12_gen_base_costs2_no_panic.
+
+Theorem c12_gen_base_costs3_no_panic : forall ex rn pt,
+  rwe ex < two64 -> rwe rn < two64 -> V3.renewalBaseCosts ex rn pt <> Panic.
+Proof. exact gen_base_costs3_no_panic. Qed.
+Print Assumptions c12_gen_base_costs3_no_panic.
